@@ -22,7 +22,7 @@ def _patched():
     import numpy
     from orquestra.quantum.operators import _pauli_operators as PO
 
-    return ST.patched((PO, "np", ST.NpProxy(numpy)), (PO, "float", ST.float_shadow))
+    return ST.patched((PO, "np", ST.NpProxy(numpy)), (PO, "float", ST.float_shadow), (PO, "complex", ST.complex_shadow))
 
 
 class Vars:
